@@ -26,7 +26,7 @@ REAL_VS_STUB = {"real": ["bounds.compute_bounds_superadditive", "bounds.compute_
                 "seams": ["scheduler interleaving objects of different n", "memo eviction", "interrupt injector"]}
 ASSUMPTIONS = ["bit-identical in exact mode, within 1e-9*max(1,max|v|) in float mode (the property's wording)",
                "both computers are compared only at knowledge sets containing the minimal information"]
-PROBES = ["computes_interleaved_in_two_threads", "two_sizes_interleaved", "evict_between_computes_same_n", "torn_on_one_twin", "scribble_on_one_twin",
+PROBES = ["two_objects_of_one_size", "computes_interleaved_in_two_threads", "two_sizes_interleaved", "evict_between_computes_same_n", "torn_on_one_twin", "scribble_on_one_twin",
           "n2_pair", "float_mode", "exact_mode"]
 TIERS = {
     "quick": {"runs": 50000, "wall": 40, "batch": 24, "shrink_s": 40},
@@ -101,6 +101,9 @@ def run(sim: Sim) -> None:
     thorough = sim.tier == "thorough"
     npairs = 2 + sim.choose(3, "pairs")
     sizes = sim.shuffled(list(range(2, 9 if thorough else 7)), "sizes")[:npairs]
+    if sim.flip(1, 3, "two-objects-of-one-size"):  # two different game objects with the same player count
+        sizes[1] = sizes[0]
+        sim.probe("two_objects_of_one_size")
     pairs = []
     for idx, n in enumerate(sizes):
         cls = sim.pick(["SA", "ANY", "SAM"], "class")
